@@ -910,10 +910,10 @@ func gcd(a, b uint64) uint64 {
 func partAFamilies(tier string) []*core.Family {
 	if tier == "thorough" {
 		return []*core.Family{
-			poolFamily("clone", 7, 170),
-			poolFamily("unsafe", 7, 170),
-			poolFamily("clone", 8, 120),
-			poolFamily("unsafe", 8, 120),
+			poolFamily("clone", 7, 150),
+			poolFamily("unsafe", 7, 150),
+			poolFamily("clone", 8, 90),
+			poolFamily("unsafe", 8, 90),
 		}
 	}
 	return []*core.Family{
